@@ -13,6 +13,11 @@ S1w(w, first) ==
     \A i \in idx : w[i].seq = first + Cardinality({ k \in idx : k < i })
 \* S2 a number appears twice only if the later occurrences are retransmissions / gap fills of it
 S2w(w) == \A i, k \in DOMAIN w : (i < k /\ w[i].seq = w[k].seq) => (w[k].pd \/ w[k].kind = "SEQRESET")
+\* S6 only retransmissions reuse a number: a gap fill never stands in for (covers the number of) a new application message
+\*    that is on the wire - the peer would skip that message for good
+S6w(w) == \A g, i \in DOMAIN w :
+             (w[g].kind = "SEQRESET" /\ w[g].gf /\ i \in NewIdx(w) /\ w[i].kind = "APP") =>
+                 ~(w[g].seq <= w[i].seq /\ w[i].seq < w[g].newseq)
 S3r(r) == \A t \in DOMAIN r : r[t] \in {"none", "FIXConnectionError"}
 S4j(w, j) == \A i \in NewIdx(w) : JHasC(j, w[i].seq) /\ JRowC(j, w[i].seq).pay = w[i].pay /\ JRowC(j, w[i].seq).kind = w[i].kind
 S5c(w, first, sout) == LET idx == NewIdx(w) IN sout = first + Cardinality(idx)
